@@ -6,6 +6,7 @@
 //!   rl_harness dump <what>                            -> table dumps for the translator (C07)
 mod curves;
 mod dates;
+mod fx;
 mod duals;
 mod hols;
 mod rng;
@@ -17,6 +18,7 @@ pub struct State {
     pub hols: hols::HolState,
     pub duals: duals::DualState,
     pub curves: curves::CurveState,
+    pub fx: fx::FxState,
 }
 
 fn run() {
@@ -30,6 +32,7 @@ fn run() {
         hols: hols::HolState::default(),
         duals: duals::DualState::default(),
         curves: curves::CurveState::default(),
+        fx: fx::FxState::default(),
     };
     for line in stdin.lock().lines() {
         let line = line.unwrap();
@@ -44,6 +47,7 @@ fn step(st: &mut State, toks: &[&str]) -> String {
         st.dates = dates::DateState::default();
         st.duals = duals::DualState::default();
         st.curves = curves::CurveState::default();
+        st.fx = fx::FxState::default();
         return "ok".to_string();
     }
     if let Some(a) = dates::step(&mut st.dates, toks) {
@@ -53,6 +57,9 @@ fn step(st: &mut State, toks: &[&str]) -> String {
         return a;
     }
     if let Some(a) = curves::step(&st.duals, &mut st.curves, toks) {
+        return a;
+    }
+    if let Some(a) = fx::step(&st.duals, &mut st.fx, toks) {
         return a;
     }
     if let Some(a) = hols::step(&mut st.hols, toks) {
@@ -76,6 +83,8 @@ fn main() {
                 "C01" => duals::gen_c01(&mut out, thorough, seed),
                 "C02" => duals::gen_c02(&mut out, thorough, seed),
                 "C03" => duals::gen_c03(&mut out, thorough, seed),
+                "C09" => fx::gen_c09(&mut out, thorough, seed),
+                "C10" => fx::gen_c10(&mut out, thorough, seed),
                 "C11" => curves::gen_c11(&mut out, thorough, seed),
                 "C12" => curves::gen_c12(&mut out, thorough, seed),
                 "C17" => duals::gen_c17(&mut out, thorough, seed),
